@@ -102,6 +102,19 @@ def _alphabet(v, d, model):
         for g in group:
             ops += g
         related.append(group)
+    # one '**' search (both flags change its answer) under every single-flag spelling, next to each other
+    for _ in range(2):
+        lab, flds = rng.choice(leaves)
+        segs = [val for _, val in flds]
+        srch = "/".join(segs[:rng.randint(2, max(2, len(segs) - 2))]) + "/**"
+        spellings = [{"op": "unfold_search", "s": srch, "u": True}, {"op": "unfold_search", "s": srch, "x": True},
+                     {"op": "unfold_search", "s": srch, "u": True, "positional": "first"},
+                     {"op": "unfold_search", "s": srch, "u": False, "x": True},
+                     {"op": "unfold_search", "s": srch, "u": True, "x": False, "positional": True},
+                     {"op": "unfold_search", "s": srch}]
+        rng.shuffle(spellings)
+        ops += spellings
+        related.append([[sp] for sp in spellings[:4]])
     v.c13_related = related
     return [o for o in ops if o]
 
